@@ -12,6 +12,7 @@ import Driver.C16X
 import Driver.Groups
 import Driver.C11V
 import Driver.Combo
+import Driver.Header
 import IGVerif.Gen.Facts
 open Drv Lean
 
@@ -21,7 +22,7 @@ def genFor (prop tier : String) (seed : Nat) : Except String (Array Case) :=
   | "COMBO" => pure (genComboCases tier seed)
   | "C02" => pure (genC02Cases tier seed ++ pairwiseNestedCases "c02" ++ nestedOpPerTypeCases "c02" ++ genComboBraceCases tier seed
                     -- nested statements and combinations on every nesting-capable symbol, as the visual export shows them
-                    ++ perSymbolVisCases "c02")
+                    ++ perSymbolVisCases "c02" ++ genHeaderCases tier seed)
   | "C03" =>
     let base := genC03Cases tier seed
     -- every fifth statement is also exported as a table (model on the implementation's parse,
@@ -55,6 +56,7 @@ def judgeFor (prop : String) : Except String (Case → ObsLine → Verdict) :=
                             else if c.tag = "shared-groups" then judgeSharedGroups c o else judgeParse c o)
   | "COMBO" => pure judgeCombo
   | "C02" => pure (fun c o => if c.op = "combo" then judgeCombo c o
+                            else if c.op = "ctype" then judgeHeader c o
                             else if c.op = "vis" then judgeVis true c o
                             else if c.tag = "operator-per-type" then judgeNestedOps c o else judgeParse c o)
   | "C03" => pure (fun c o => if c.op = "tab" then judgeTabWith ["C05", "C06"] c o else judgeParse c o)
